@@ -1,5 +1,5 @@
 (* C15 over the definitions regenerated from moclo/record.py (Gen/Src.v). Statements only. *)
-From MV Require Import Base RotLemmas Circle CircleLemmas Py PyObj SrcEquivRegex SrcCorollaries.
+From MV Require Import Base RotLemmas Circle CircleLemmas Py PyObj SrcEquivRegex SrcEquivRecord SrcCorollaries.
 From MV.Gen Require Import Src.
 From Coq Require Import String.
 Open Scope Z_scope.
@@ -27,3 +27,26 @@ Theorem C15_src_slice : forall rec lo hi,
     /\ pr_annotations r = match pr_annotations rec with Some _ => Some "linear"%string | None => None end.
 Proof. exact CircularRecord_getitem_slice_eq. Qed.
 Print Assumptions C15_src_slice.
+
+(* concatenating anything to a circular record, from either side, is refused with TypeError:
+   __add__ and __radd__ are replaced by the @_ambiguous wrapper (read from the source: the
+   decorator must be there and its wrapper must only raise TypeError) *)
+Theorem C15_src_add : forall x y : pyrecord,
+  is_CircularRecord x = true \/ is_CircularRecord y = true -> py_addm x y = Err XTypeError.
+Proof. exact src_add_refused. Qed.
+Print Assumptions C15_src_add.
+
+(* CircularRecord(record), as translated from __init__: a record whose topology annotation is
+   not "circular" (in any letter case) is refused with ValueError; otherwise the result is a
+   CircularRecord with the same sequence, identity, features, annotation and tracks (values are
+   immutable in the model: a copy) *)
+Theorem C15_src_constructor : forall r,
+  CircularRecord_new r =
+  match pr_annotations r with
+  | Some t => if String.eqb (str_lower t) "circular"
+              then Ok (PR KCircularRecord (pr_seq r) (pr_id r) (pr_features r) (pr_annotations r) (pr_letter_annotations r))
+              else Err XValueError
+  | None => Ok (PR KCircularRecord (pr_seq r) (pr_id r) (pr_features r) None (pr_letter_annotations r))
+  end.
+Proof. exact CircularRecord_new_eq. Qed.
+Print Assumptions C15_src_constructor.
